@@ -1511,7 +1511,8 @@ func (e *CoreExtension) filterSlice(value interface{}, args ...interface{}) (int
 	}
 
 	// Default length is to the end
-	length := -1
+	length := 0
+	hasLength := false
 	if len(args) > 1 {
 		// Make sure we can convert the second argument to an integer
 		if args[1] != nil {
@@ -1519,77 +1520,23 @@ func (e *CoreExtension) filterSlice(value interface{}, args ...interface{}) (int
 			if err != nil {
 				return nil, err
 			}
+			hasLength = true
 		}
 	}
 
 	switch v := value.(type) {
 	case string:
 		runes := []rune(v)
-		runeCount := len(runes)
-
-		// Handle negative start index
-		if start < 0 {
-			// In Twig, negative start means count from the end of the string
-			// For example, -5 means "the last 5 characters"
-			// So we convert it to a positive index directly
-			start = runeCount + start
-		}
-
-		// Check bounds
-		if start < 0 {
-			start = 0
-		}
-		if start >= runeCount {
+		start, end := sliceBounds(len(runes), start, length, hasLength)
+		if start >= end {
 			return "", nil
 		}
-
-		// Calculate end index
-		end := runeCount
-		if length >= 0 {
-			end = start + length
-			if end > runeCount {
-				end = runeCount
-			}
-		} else if length < 0 {
-			// Negative length means count from the end
-			end = runeCount + length
-			if end < start {
-				end = start
-			}
-		}
-
 		return string(runes[start:end]), nil
 	case []interface{}:
-		count := len(v)
-
-		// Handle negative start index
-		if start < 0 {
-			start = count + start
-		}
-
-		// Check bounds
-		if start < 0 {
-			start = 0
-		}
-		if start >= count {
+		start, end := sliceBounds(len(v), start, length, hasLength)
+		if start >= end {
 			return []interface{}{}, nil
 		}
-
-		// Calculate end index
-		end := count
-		if length >= 0 {
-			end = start + length
-			if end > count {
-				end = count
-			}
-		} else if length < 0 {
-			// Negative length means count from the end
-			end = count + length
-			if end < start {
-				end = start
-			}
-		}
-
 		return v[start:end], nil
 	}
 
@@ -1597,72 +1544,17 @@ func (e *CoreExtension) filterSlice(value interface{}, args ...interface{}) (int
 	rv := reflect.ValueOf(value)
 	switch rv.Kind() {
 	case reflect.String:
-		s := rv.String()
-		runes := []rune(s)
-		runeCount := len(runes)
-
-		// Handle negative start index
-		if start < 0 {
-			start = runeCount + start
-		}
-
-		// Check bounds
-		if start < 0 {
-			start = 0
-		}
-		if start >= runeCount {
+		runes := []rune(rv.String())
+		start, end := sliceBounds(len(runes), start, length, hasLength)
+		if start >= end {
 			return "", nil
 		}
-
-		// Calculate end index
-		end := runeCount
-		if length >= 0 {
-			end = start + length
-			if end > runeCount {
-				end = runeCount
-			}
-		} else if length < 0 {
-			// Negative length means count from the end
-			end = runeCount + length
-			if end < start {
-				end = start
-			}
-		}
-
 		return string(runes[start:end]), nil
 	case reflect.Array, reflect.Slice:
-		count := rv.Len()
+		start, end := sliceBounds(rv.Len(), start, length, hasLength)
 
-		// Handle negative start index
-		if start < 0 {
-			start = count + start
-		}
-
-		// Check bounds
-		if start < 0 {
-			start = 0
-		}
-		if start >= count {
-			return reflect.MakeSlice(rv.Type(), 0, 0).Interface(), nil
-		}
-
-		// Calculate end index
-		end := count
-		if length >= 0 {
-			end = start + length
-			if end > count {
-				end = count
-			}
-		} else if length < 0 {
-			// Negative length means count from the end
-			end = count + length
-			if end < start {
-				end = start
-			}
-		}
-
-		// Create a new slice with the same type
-		result := reflect.MakeSlice(rv.Type(), end-start, end-start)
+		// Create a new slice with the same element type
+		result := reflect.MakeSlice(reflect.SliceOf(rv.Type().Elem()), end-start, end-start)
 		for i := start; i < end; i++ {
 			result.Index(i - start).Set(rv.Index(i))
 		}
@@ -1671,6 +1563,36 @@ func (e *CoreExtension) filterSlice(value interface{}, args ...interface{}) (int
 	}
 
 	return nil, fmt.Errorf("cannot slice %T", value)
+}
+
+// sliceBounds applies Twig's slice index rules to a sequence of count elements and
+// returns the half-open index range [start, end) with 0 <= start <= end <= count.
+// A negative start counts from the end, a negative length stops that many elements
+// before the end, and an omitted length (hasLength false) means "to the end".
+func sliceBounds(count, start, length int, hasLength bool) (int, int) {
+	if start < 0 {
+		start += count
+		if start < 0 {
+			start = 0
+		}
+	}
+	if start > count {
+		start = count
+	}
+	end := count
+	if hasLength {
+		if length >= 0 {
+			if length < count-start {
+				end = start + length
+			}
+		} else {
+			end = count + length
+			if end < start {
+				end = start
+			}
+		}
+	}
+	return start, end
 }
 
 func (e *CoreExtension) filterKeys(value interface{}, args ...interface{}) (interface{}, error) {
